@@ -1,6 +1,7 @@
 package main
 
 import (
+	"sort"
 	"go/ast"
 	"go/types"
 	"strings"
@@ -15,7 +16,29 @@ func init() {
 			var obs []Obligation
 			pprog := c.LookupMethod("parser/rdparser.Parser.ParseProgram")
 			nf := c.LookupPkgFunc("parser/rdparser.NewFormatting")
-			for _, fname := range []string{"formatter.Format", "formatter.FormatFile"} {
+			// the text entry points: exported functions of the formatter that take source bytes and
+			// return (bytes, error).  Format and FormatFile must be among them.
+			entries := map[string]bool{}
+			var names []string
+			for _, eu := range c.Funcs(func(p string) bool { return rel(p) == "formatter" }) {
+				sig := eu.Obj.Type().(*types.Signature)
+				if !eu.Obj.Exported() || sig.Recv() != nil || sig.Results().Len() != 2 || sig.Params().Len() == 0 {
+					continue
+				}
+				if sig.Params().At(0).Type().String() != "[]byte" || sig.Results().At(0).Type().String() != "[]byte" || sig.Results().At(1).Type().String() != "error" {
+					continue
+				}
+				entries[FuncName(eu.Obj)] = true
+				names = append(names, FuncName(eu.Obj))
+			}
+			for _, must := range []string{"formatter.Format", "formatter.FormatFile"} {
+				if !entries[must] {
+					entries[must] = true
+					names = append(names, must)
+				}
+			}
+			sort.Strings(names)
+			for _, fname := range names {
 				fn, fd, pkg := c.LookupFunc(fname)
 				if fn == nil || pprog == nil || nf == nil {
 					obs = append(obs, anchorMissing("FMT.reject", fname))
@@ -26,6 +49,34 @@ func init() {
 				fc := c.cfgOf(u, nil)
 				calls := fc.findCalls(pprog)
 				usesNF := len(fc.findCalls(nf)) > 0
+				if len(calls) == 0 {
+					// an entry point that hands the text to another entry point on every path
+					deleg, nret := true, 0
+					ast.Inspect(fd.Body, func(n ast.Node) bool {
+						if _, ok := n.(*ast.FuncLit); ok {
+							return false
+						}
+						if rs, ok := n.(*ast.ReturnStmt); ok {
+							nret++
+							ok2 := false
+							if len(rs.Results) == 1 {
+								if ce, ok := ast.Unparen(rs.Results[0]).(*ast.CallExpr); ok {
+									if h := originOf(Callee(info, ce)); h != nil && entries[FuncName(h)] && h != fn {
+										ok2 = true
+									}
+								}
+							}
+							if !ok2 {
+								deleg = false
+							}
+						}
+						return true
+					})
+					if deleg && nret > 0 {
+						obs = append(obs, mkOb(c, "FMT.reject", u, "rejected input produces no output", fd, Proved, "every return delegates to another text entry point of the formatter", true))
+						continue
+					}
+				}
 				if len(calls) != 1 || !usesNF {
 					obs = append(obs, mkOb(c, "FMT.reject", u, "parse", fd, Violated, "does not parse exactly once with rdparser.NewFormatting(...).ParseProgram()", true))
 					continue
@@ -52,9 +103,20 @@ func init() {
 				guarded := true
 				if np != nil && errObj != nil {
 					nilEdges := fc.nilEdges(errObj, true)
-					for _, pc := range fc.findCalls(np) {
-						if len(nilEdges) == 0 || fc.reachableAvoiding(pc.Loc.B, nilEdges) {
-							guarded = false
+					for _, b := range fc.G.Blocks {
+						if !fc.Live(b) {
+							continue
+						}
+						for _, nd := range b.Nodes {
+							prints := c.nodeCallsVia(info, nd, np) != nil
+							for _, ce := range callsIn(nd, false) {
+								if h := originOf(Callee(info, ce)); h != nil && h.Pkg() == fn.Pkg() && c.reaches(h, np) {
+									prints = true
+								}
+							}
+							if prints && (len(nilEdges) == 0 || fc.reachableAvoiding(b, nilEdges)) {
+								guarded = false
+							}
 						}
 					}
 				}
